@@ -76,6 +76,16 @@ def gen(rng, tier):
             plan.append((api, ["x", hexs(p1), hexs(p2)], [p1, p2], exp, "n=%d" % n))
         plan.append(("ss_cb_throw_std", ["x", hexs(p1), hexs(p2), "E=throw:runtime_error"], [p1], "cbthrow", "n=%d" % n))
         plan.append(("ss_cb_throw_other", ["x", hexs(p1), hexs(p2), "E=throw:callback_type"], [p1], "cbthrow", "n=%d" % n))
+    # long Base36 secrets at the extremes of their byte length (most digits per byte: 0x01 00 00.., 0x01 03.., and 0xFF..): a work-buffer bound that is
+    # one byte short for some digit counts reallocates with the decoded bytes inside
+    def b36s(d):
+        v = int.from_bytes(d, "big"); ds = "0123456789ABCDEFGHIJKLMNOPQRSTUVWXYZ"; o = ""
+        while v: o = ds[v % 36] + o; v //= 36
+        return ("0" * (len(d) - len(d.lstrip(b"\x00"))) + o).encode()
+    for n in [60, 100, 137, 138, 139, 180, 181, 233, 234, 300]:
+        for head in (b"\x01\x00", b"\x01\x03", b"\xff\xff", b"\x02\x10"):
+            d = head + sec(n - 2)
+            plan.append(("b36dec_secure", ["x", hexs(b36s(d))], [d], "ok", "extreme n=%d head=%s" % (n, head.hex())))
     # phase 1: derived values from the inventory model
     model = os.path.join(core.OCAML, "model_run")
     def nq(api, args, exp):
